@@ -510,7 +510,7 @@ Definition known_silent : list string :=
    (* [P] navigation: cgi_next_posit returns a code and its caller chooses the message by that code *)
    "cg_goto"; "cg_goto_f08"; "cg_gorel"; "cg_gorel_f08"; "cg_gopath"; "cg_golist";
    (* [P] not status functions / file-name utilities *)
-   "cg_is_cgns"; "cg_free"; "cgio_find_file"; "cgio_compute_data_size"; "cgio_error_message"].
+   "cg_free"; "cgio_find_file"; "cgio_compute_data_size"; "cgio_error_message"].
 Local Close Scope string_scope.
 
 (* ------------------------------------------------------------------------------------------------ table-level checks *)
@@ -732,6 +732,10 @@ Fixpoint has_ret (q : seq) : bool :=
   | QIfFail _ t e k | QIf t e k | QIfLM t e k => has_ret t || has_ret e || has_ret k
   | QLoop b k => has_ret b || has_ret k
   end.
+(* the checks every SUCCESSFUL path of the body runs through.  A branch does not end the spine when neither arm can return
+   success or leave a loop (no_ok_ret: every return in the arms is a failing one, e.g. the file-selection step
+   `if (posit != 0) { cg = cgi_get_file(posit_file); if (cg == 0 ..) return CG_ERROR; }` in front of the argument checks):
+   whatever the arms did, a call that succeeds continues with k. *)
 Definition spine_item := (vclass * positive * list positive * list positive * bool)%type.
 Fixpoint spine (q : seq) : list spine_item :=
   match q with
@@ -744,8 +748,8 @@ Fixpoint spine (q : seq) : list spine_item :=
           | ACall _ i args ids _ => [(CState, i, args, ids, false)]
           | _ => [] end in
       here ++ (if has_ret e then [] else spine e ++ spine k)
-    else if has_ret t || has_ret e then [] else spine k
-  | QIf t e k | QIfLM t e k => if has_ret t || has_ret e then [] else spine k
+    else if no_ok_ret t && no_ok_ret e then spine k else []
+  | QIf t e k | QIfLM t e k => if no_ok_ret t && no_ok_ret e then spine k else []
   | QLoop b k => if has_ret b then [] else spine k
   | _ => []
   end.
@@ -816,16 +820,16 @@ Definition known_unvalidated : list (string * positive) :=
    ("cg_AverageInterfaceTypeName"%string, 1%positive); ("cg_ParticleGoverningEquationsTypeName"%string, 1%positive); ("cg_ParticleModelTypeName"%string, 1%positive); 
    ("cg_zone_write"%string, 5%positive); ("cg_node_family_read"%string, 1%positive); ("cg_node_family_name_read"%string, 1%positive); 
    ("cg_discrete_ptset_write"%string, 5%positive); ("cg_grid_bounding_box_write"%string, 5%positive); 
-   ("cg_coord_read"%string, 4%positive); ("cg_coord_general_read"%string, 4%positive); ("cg_section_write"%string, 1%positive); ("cg_poly_section_write"%string, 2%positive); 
-   ("cg_poly_section_write"%string, 3%positive); ("cg_poly_section_write"%string, 4%positive); ("cg_poly_section_write"%string, 5%positive); 
-   ("cg_section_general_write"%string, 1%positive); ("cg_section_general_write"%string, 2%positive); ("cg_section_general_write"%string, 3%positive); 
+   ("cg_coord_read"%string, 4%positive); ("cg_coord_general_read"%string, 4%positive); 
+   
+   
    ("cg_section_general_write"%string, 6%positive); ("cg_elements_general_write"%string, 7%positive); ("cg_poly_elements_general_write"%string, 7%positive); 
    ("cg_sol_ptset_write"%string, 5%positive); ("cg_field_read"%string, 5%positive); ("cg_field_general_read"%string, 5%positive); ("cg_subreg_ptset_write"%string, 6%positive); 
    ("cg_subreg_bcname_write"%string, 6%positive); ("cg_subreg_gcname_write"%string, 6%positive); 
-   ("cg_conn_read"%string, 6%positive); ("cg_conn_write"%string, 1%positive); ("cg_conn_write"%string, 2%positive); ("cg_conn_write"%string, 3%positive); 
-   ("cg_conn_write"%string, 11%positive); ("cg_conn_write"%string, 12%positive); ("cg_conn_write"%string, 13%positive); ("cg_conn_write_short"%string, 1%positive); 
-   ("cg_conn_write_short"%string, 2%positive); ("cg_conn_write_short"%string, 3%positive); 
-   ("cg_boco_write"%string, 5%positive); ("cg_boco_write"%string, 6%positive); ("cg_boco_gridlocation_write"%string, 5%positive); 
+   ("cg_conn_read"%string, 6%positive); 
+   ("cg_conn_write"%string, 11%positive); ("cg_conn_write"%string, 12%positive); ("cg_conn_write"%string, 13%positive); 
+   
+   ("cg_boco_write"%string, 6%positive); ("cg_boco_gridlocation_write"%string, 5%positive); 
    ("cg_boco_normal_write"%string, 7%positive); ("cg_particle_bounding_box_write"%string, 5%positive); 
    ("cg_particle_coord_read"%string, 4%positive); 
    ("cg_particle_coord_general_read"%string, 4%positive); ("cg_particle_field_read"%string, 5%positive); ("cg_particle_field_general_read"%string, 5%positive); 
